@@ -303,6 +303,39 @@ pub fn run(ctx: &Ctx) -> (Stats, Report) {
     st.exhaustive_sections.push("all 1,000,000 microseconds at seconds 0, 43199, 86399".into());
     st.section("times_of_day", &mut mark);
 
+    // B3: instants at +-2^k in derived units, and every second of the days containing the
+    // classic ones (i32 seconds, 2^53 us, ...)
+    let inst = pools::binary_boundary_instants();
+    for (k, &x) in inst.iter().enumerate() {
+        let (n, t) = (x.div_euclid(US_PER_DAY) as i32, x.rem_euclid(US_PER_DAY) as i64);
+        st.evaluations += 1;
+        st.fps.push(hash_ints(0x7b, &[x]));
+        st.class("binary-boundary-instant");
+        if let Err(m) = check_pair(n, t) {
+            st.fail(k as u64, Case::new(P, "pair", vec![n as i128, t as i128], vec![]), m);
+            break;
+        }
+    }
+    let bdays = pools::binary_boundary_days(ctx.thorough);
+    let bref = &bdays;
+    let s = par_sweep(bdays.len() as u64 * 86_400, 4096, |range, st| {
+        for k in range {
+            let n = bref[(k / 86_400) as usize];
+            let sec = (k % 86_400) as i64;
+            for us in [0i64, 1, 999_999] {
+                st.evaluations += 1;
+                st.nontrivial_enum += 1;
+                if let Err(m) = check_pair(n, sec * 1_000_000 + us) {
+                    st.fail(k, Case::new(P, "pair", vec![n as i128, (sec * 1_000_000 + us) as i128], vec![]), m);
+                    return;
+                }
+            }
+        }
+    });
+    st.merge(s);
+    st.exhaustive_sections.push(format!("every second of {} binary-boundary days (counts in us/ms/s/min/day crossing +-2^k)", bdays.len()));
+    st.section("binary_boundary_instants", &mut mark);
+
     // C: validity grid
     let hs = [0u32, 1, 11, 12, 23, 24, 25, 255, 256, u32::MAX];
     let ms = [0u32, 1, 59, 60, 61, 255, 256, u32::MAX];
